@@ -550,6 +550,8 @@ class Tr:
             return ("ite", self.cond(e.test, env, k), self.expr(e.body, env, k), self.expr(e.orelse, env, k))
         if isinstance(e, ast.Attribute):
             src = ast.unparse(e)
+            if src == "self.params":
+                return ("paramsref",)          # a local alias of the parameter dictionary (`par = self.params; par["A"]`)
             if src in ("np.pi", "math.pi"):
                 return ("pi",)
             if src in ("np.e", "math.e"):
@@ -579,6 +581,8 @@ class Tr:
             return self.expr(e.value, env, k)        # boolean-mask selection: the same element of the array
         if isinstance(e, ast.Subscript):
             src = ast.unparse(e.value)
+            if isinstance(e.value, ast.Name) and env.get(e.value.id) == ("paramsref",):
+                src = "self.params"
             if src == "self.params":
                 key = None
                 if isinstance(e.slice, ast.Constant):
@@ -1089,7 +1093,9 @@ def wiring():
                         cands = [(l_, v_) for l_, v_ in defs_.get(n_.id, []) if l_ < line]
                         if cands and depth < (6 if full_[0] else 3):
                             l_, v_ = max(cands, key=lambda c: c[0])
-                            pure_call = isinstance(v_, ast.Call) and (ast.unparse(v_.func).startswith("np.") or ast.unparse(v_.func).startswith("self."))
+                            # (the callee may itself be a local alias of a bound method: `lnt = self.transfer.lnt; t = lnt(x)`)
+                            fsrc_ = src_(v_.func, l_, depth + 1) if isinstance(v_, ast.Call) else ""
+                            pure_call = isinstance(v_, ast.Call) and (fsrc_.startswith("np.") or fsrc_.startswith("self."))
                             if (not isinstance(v_, ast.Call) or (full_[0] and pure_call)) and cnt_.get(n_.id, 0) <= 2:
                                 return ast.parse(src_(v_, l_, depth + 1), mode="eval").body
                         return n_
@@ -1238,6 +1244,14 @@ def guards():
                     locals_stack.append({a_.targets[0].id: a_.value for a_ in ast.walk(ch) if isinstance(a_, ast.Assign) and len(a_.targets) == 1
                                          and isinstance(a_.targets[0], ast.Name) and cnt.get(a_.targets[0].id) == 1 and a_.targets[0].id not in argn
                                          and (not isinstance(a_.value, ast.Call) or ast.unparse(a_.value.func).startswith("self."))})
+                    # `a, b = x, y` binds element-wise
+                    for a_ in ast.walk(ch):
+                        if isinstance(a_, ast.Assign) and len(a_.targets) == 1 and isinstance(a_.targets[0], ast.Tuple) and isinstance(a_.value, ast.Tuple) \
+                                and len(a_.targets[0].elts) == len(a_.value.elts):
+                            for t_, v_ in zip(a_.targets[0].elts, a_.value.elts):
+                                if isinstance(t_, ast.Name) and cnt.get(t_.id) == 1 and t_.id not in argn \
+                                        and (not isinstance(v_, ast.Call) or ast.unparse(v_.func).startswith("self.")):
+                                    locals_stack[-1][t_.id] = v_
                     localnames_stack.append(set(cnt) - argn)
                     # a comparison stored in a local boolean and then tested n times counts n times (the table is a multiset of *tests*):
                     # computing a repeated condition once, or inlining such a local at its uses, leaves the table unchanged
